@@ -295,7 +295,7 @@ def T2_reader_mutation_kinds(ctx):
     n = 0
     for m in ('db_basic', 'db_code_by_hash', 'db_storage', 'db_block_hash'):
         f = ctx.method('parallel_state::ParallelStateView', m)
-        bodies = [f.b] + [b for b in facts.bodies if b['kind'] == 'closure' and b['fn'].startswith(f.name + '::')]
+        bodies = [f.b] + facts.closures_under(f.name)
         for b in bodies:
             for bl in b['blocks']:
                 if bl['cleanup']:
@@ -421,8 +421,8 @@ def BU_bundle(ctx):
            what='the two-phase builder is only equivalent to revm for an initially empty bundle (Vacant entries); any pre-populated part must go through revm\'s occupied-entry merge; exactly one revert list is pushed per block')
     # the map closure: uses revm's own per-transition helpers
     okh = set()
-    for b in ctx.facts.bodies:
-        if b['kind'] == 'closure' and b['fn'].startswith(f.name + '::'):
+    for b in ctx.facts.closures_under(f.name):
+        if True:
             for bl in b['blocks']:
                 t = bl['term']
                 if t['k'] == 'call':
